@@ -57,7 +57,9 @@ bool read_parity_block(const Sandbox& sb, const Content& c, int level, uint32_t 
 std::string parity_location(const Sandbox& sb, const Content& c, int level, uint32_t pos, uint64_t& off);
 
 // block bytes (unpadded) of a recorded file from the version store; false if the version is unknown
-bool recorded_block(const Sandbox& sb, const Content& c, const CFile& f, uint32_t block_idx, Bytes& out);
+// When several versions exist under the same (path,size,stamp) key the one whose block hashes to the recorded hash is
+// taken (prev = the stripe still uses the previous hash kind); *matched tells whether such a version was found.
+bool recorded_block(const Sandbox& sb, const Content& c, const CFile& f, uint32_t block_idx, Bytes& out, bool prev = false, bool* matched = nullptr);
 std::shared_ptr<Bytes> recorded_version(const Sandbox& sb, const Content& c, const CFile& f);
 
 extern "C" int ref_block_hash(char kind, const unsigned char* seed, const void* data, size_t size, unsigned char* digest);
